@@ -189,6 +189,13 @@ def runtime_table_integrity(cov, fail):
                 q['hostkey_sizes'] = {k: {kk: vv for kk, vv in v.items() if kk in ref[pn]['hostkey_sizes'].get(k, {})} for k, v in q['hostkey_sizes'].items()}
             out[pn] = q
         return out
+    # a standard audit WITH the connection-rate check, against a target advertising names the tables do not know (look-alikes of table entries included):
+    # the denial-of-service tables are read, never extended
+    odd_kex = ('curve25519-sha256', 'diffie-hellman-group-exchange-sha512@example.com', 'diffie-hellman-group-exchange-sha256', 'diffie-hellman-group99-sha512', 'ecdh-sha2-nistp999')
+    rsrv = fn.simple_server(kex=odd_kex, key=('ssh-ed25519',), enc=('aes256-ctr',), mac=('hmac-sha2-256-etm@openssh.com',), gex=lambda a, b, c: 3072 if c >= 3072 else None)
+    for extra in ([], ['-j']):
+        fn.run_main(['-n'] + extra + ['10.3.3.6'], fn.FakeNet({'10.3.3.6': rsrv}), fresh=False)
+        cov.add(('runtime-dheat-tables', tuple(extra)), True, tags=['runtime-integrity'])
     for name, live_t in other_tables.items():
         if relevant(name, live_t, snap_other[name]) != snap_other[name]:
             keys = [k for k in snap_other[name] if isinstance(snap_other[name], dict) and live_t.get(k) != snap_other[name][k]]
